@@ -55,6 +55,10 @@ class NeedsBind(Exception):
     pass
 
 
+class NotMapIter(Exception):
+    """map_iter_uses: the variable is used otherwise than by `.next()` / `for`"""
+
+
 # ---------------------------------------------------------------------------
 # types
 
@@ -198,6 +202,8 @@ class Emitter:
         if ty is None:
             return UNIT
         f = ty.form
+        if f == "emitted":
+            return ty.ty        # internal node: a type the emitter computed itself (range_chain)
         if f in ("ref", "ptr"):
             return self.ty_of_ast(ty.inner)
         if f in ("slice", "array"):
@@ -826,6 +832,163 @@ class Emitter:
             return self.expr(e.idx, env1, lambda i, _t, env2: self.bind("aget %s %s" % (base, i), elt, env2, k, hint="el"))
         return self.expr(e.e, env, k1)
 
+    # -- a range used as an iterator value: `(a..b).map(f).filter(g).find(h)` (also `.any(h)` / `.all(h)`) ------------
+    # The chain is read as the loop it abbreviates (core::iter: `find` = try_for_each that stops at the first hit; the
+    # adaptors `map` / `filter` are lazy, every closure is called once per position, in order, until the hit):
+    #   { let mut found = None; for x in a..b { let y = f(x); if !g(&y) { continue; } if h(&y) { found = Some(y); break; } } found }
+    # so the closures may read, assign, panic like any loop body and the translation is the one of that `for` loop.
+    def pat_names(self, p, acc=None):
+        acc = set() if acc is None else acc
+        if isinstance(p, (list, tuple)):
+            for y in p:
+                self.pat_names(y, acc)
+        elif isinstance(p, N):
+            if p.kind == "pident":
+                acc.add(p.name)
+            for kk, vv in p.__dict__.items():
+                if kk != "kind":
+                    self.pat_names(vv, acc)
+        return acc
+
+    def idents_in(self, x, acc=None):
+        """one-segment paths and identifier tokens (macro arguments) of an AST"""
+        from .lexer import Tok
+        acc = set() if acc is None else acc
+        if isinstance(x, (list, tuple)):
+            for y in x:
+                self.idents_in(y, acc)
+        elif isinstance(x, Tok):
+            if x.kind == "ident":
+                acc.add(x.text)
+        elif isinstance(x, N):
+            if x.kind == "path" and len(x.segs) == 1:
+                acc.add(x.segs[0])
+            for kk, vv in x.__dict__.items():
+                if kk != "kind":
+                    self.idents_in(vv, acc)
+        return acc
+
+    def probe_type(self, e, env):
+        """the type of an expression, by a throw-away translation (names drawn meanwhile are given back)"""
+        box = []
+        saved = (dict(self.counter), self.ctl, self.pure_mode)
+        try:
+            self.expr(e, env, lambda t, ty, env1: (box.append(ty), "tt")[1])
+        except NeedsBind:
+            pass
+        finally:
+            self.counter, self.ctl, self.pure_mode = saved
+        return box[0] if box else UNKNOWN
+
+    def range_chain(self, e, env):
+        """the block `e` abbreviates when it is `<range>[.map(c) | .filter(c)]*.find(c)` (`.any` / `.all`), else None"""
+        stages = [(e.name, e.args[0])]
+        r = e.recv
+        while r.kind == "mcall" and r.name in ("map", "filter") and len(r.args) == 1 and r.args[0].kind == "closure":
+            stages.append((r.name, r.args[0]))
+            r = r.recv
+        while r.kind == "paren":
+            r = r.e
+        if r.kind != "range" or r.lo is None or r.hi is None:
+            return None
+        stages.reverse()
+        for _n, cl in stages:
+            if len(cl.params) != 1:
+                raise EmitError("iterator chain over a range: one-parameter closures expected")
+        # a closure parameter must not be visible in a later closure (there it would shadow what that closure captures)
+        seen = set()
+        for _n, cl in stages:
+            clash = (seen - self.pat_names(cl.params[0][0])) & self.idents_in(cl.body)
+            if clash:
+                raise EmitError("iterator chain over a range: the closure parameter %s is also captured by a later closure" % sorted(clash)[0])
+            seen |= self.pat_names(cl.params[0][0])
+        path = lambda n: N("path", segs=[n])
+        let = lambda pat, init, ty=None: N("let", pat=pat, ty=ty, init=init, els=None, attrs=[])
+        pid = lambda n, mut=False: N("pident", name=n, by_ref=False, mut=mut, sub=None)
+        stmt = lambda x: N("expr", e=x, semi=True, attrs=[])
+        blk = lambda ss, tail=None: N("block", stmts=ss, tail=tail)
+        res = "__found" if e.name == "find" else "__holds"
+        cur = "__pos"
+        body = []
+        elt = None          # the item type after the last `map` (None: the range's own integer type)
+        n_map = 0
+        for nm, cl in stages:
+            pat = cl.params[0][0]
+            if nm == "map":
+                n_map += 1
+                nxt = "__item%d" % n_map
+                body.append(let(pid(nxt), blk([let(pat, path(cur))], cl.body)))
+                cur = nxt
+                elt = cl
+            else:
+                body.append(let(pat, path(cur)))
+                if nm == "filter":
+                    body.append(stmt(N("if", cond=N("unary", op="!", e=N("paren", e=cl.body)), then=blk([stmt(N("continue", label=None))]), els=None)))
+                elif nm == "find":
+                    hit = N("call", f=path("Some"), args=[path(cur)])
+                    body.append(stmt(N("if", cond=cl.body, then=blk([stmt(N("assign", op="=", lhs=path(res), rhs=hit)), stmt(N("break", e=None, label=None))]), els=None)))
+                else:
+                    cond = cl.body if nm == "any" else N("unary", op="!", e=N("paren", e=cl.body))
+                    body.append(stmt(N("if", cond=cond, then=blk([stmt(N("assign", op="=", lhs=path(res), rhs=N("bool", val=(nm == "any")))), stmt(N("break", e=None, label=None))]), els=None)))
+        if e.name == "find":
+            # the type of the hit: the range's integer type, or (after `map`) the type of what the maps compute
+            ity = self.probe_type(r.hi, env)
+            ity = ity if is_int(ity) else INT("usize")
+            if elt is not None:
+                pre = []
+                c = "__pos"
+                j = 0
+                probe_env = env.bind("__pos", "pos", ity)
+                for nm, cl in stages:
+                    if nm == "map":
+                        j += 1
+                        pre.append(let(pid("__item%d" % j), blk([let(cl.params[0][0], path(c))], cl.body)))
+                        c = "__item%d" % j
+                ity = self.probe_type(blk(pre, path(c)), probe_env)
+            init = let(pid(res, True), path("None"), N("ty", form="emitted", ty=("opt", ity)))
+        else:
+            init = let(pid(res, True), N("bool", val=(e.name == "all")))
+        loop = N("for", pat=pid("__pos"), iter=r, body=blk(body), label=None)
+        return blk([init, stmt(loop)], path(res))
+
+    # -- `let it = <iterator>.map(closure);` where `it` is only consumed by `it.next()` and `for x in it` ---------------
+    # core::iter::Map: `it.next()` = `<iterator>.next().map(closure)`, `for x in it { B }` = `for y in <iterator> { let x = closure(y); B }`
+    # (the closure is called once per item, in order, just before the item is used), so the adaptor is written out at its uses.
+    def map_iter_uses(self, x, name, src, cl, count):
+        from .lexer import Tok
+        if isinstance(x, list):
+            return [self.map_iter_uses(y, name, src, cl, count) for y in x]
+        if isinstance(x, tuple):
+            return tuple(self.map_iter_uses(y, name, src, cl, count) for y in x)
+        if isinstance(x, Tok):
+            if x.kind == "ident" and x.text == name:
+                raise NotMapIter("other use")
+            return x
+        if not isinstance(x, N):
+            return x
+        if x.kind == "pident" and x.name == name:
+            raise NotMapIter("bound again")
+        is_it = lambda y: isinstance(y, N) and y.kind == "path" and y.segs == [name]
+        if x.kind == "mcall" and x.name == "next" and not x.args and is_it(x.recv):
+            count.append("next")
+            inner = N("mcall", recv=N("path", segs=[src]), name="next", args=[], targs=None)
+            return N("mcall", recv=inner, name="map", args=[cl], targs=None)
+        if x.kind == "for" and is_it(x.iter):
+            count.append("for")
+            body = self.map_iter_uses(x.body, name, src, cl, count)
+            pat = cl.params[0][0]
+            if self.pat_names(pat) & self.idents_in(body):
+                raise EmitError("for over a mapped iterator: the closure parameter is also a variable of the loop body")
+            first = N("let", pat=x.pat, ty=None, init=cl.body, els=None, attrs=[])
+            return N("for", pat=pat, iter=N("path", segs=[src]), body=N("block", stmts=[first] + list(body.stmts), tail=body.tail), label=x.label)
+        if is_it(x):
+            raise NotMapIter("other use")
+        y = N(x.kind)
+        for kk, vv in x.__dict__.items():
+            if kk != "kind":
+                setattr(y, kk, self.map_iter_uses(vv, name, src, cl, count))
+        return y
+
     def e_range(self, e, env, k):
         hook = self.v.get("range_hook")
         if hook is not None:
@@ -1173,6 +1336,19 @@ class Emitter:
             # rest of the block is translated with `w` read as `f` (writes through `w` are writes to `f`)
             a, b = s.pat.name, s.init.segs[0]
             return self.stmts([rename_ident(x, a, b) for x in stmts[i + 1:]], 0, rename_ident(tail, a, b) if tail is not None else None, env, k)
+        if (s.kind == "let" and s.init is not None and s.els is None and s.pat.kind == "pident" and s.init.kind == "mcall" and s.init.name == "map"
+                and len(s.init.args) == 1 and s.init.args[0].kind == "closure" and len(s.init.args[0].params) == 1 and self.v.get("iter_conv")):
+            # `let mut it = <iterator>.map(closure);` consumed only by `it.next()` / `for x in it` (map_iter_uses)
+            count = []
+            src = "__src_" + s.pat.name
+            try:
+                new_rest = self.map_iter_uses(list(stmts[i + 1:]), s.pat.name, src, s.init.args[0], count)
+                new_tail = self.map_iter_uses(tail, s.pat.name, src, s.init.args[0], count) if tail is not None else None
+            except NotMapIter:
+                count = []
+            if count:
+                s0 = N("let", pat=N("pident", name=src, by_ref=False, mut=True, sub=None), ty=None, init=s.init.recv, els=None, attrs=[])
+                return self.stmts([s0] + new_rest, 0, new_tail, env, k)
         if s.kind == "let":
             return self.let_stmt(s, env, rest)
         if s.kind == "expr":
@@ -2212,6 +2388,10 @@ class Emitter:
 
     def e_mcall(self, e, env, k):
         name = e.name
+        if name in ("find", "any", "all") and len(e.args) == 1 and e.args[0].kind == "closure":
+            rc = self.range_chain(e, env)
+            if rc is not None:
+                return self.expr(rc, env, k)
         # methods that only adjust references / copies
         if name in ("iter", "copied", "cloned", "as_ref", "as_mut", "by_ref", "clone", "into", "as_slice", "as_bytes", "to_owned", "borrow", "borrow_mut", "as_deref") and not e.args:
             skip = self.v.get("no_transparent", ())
